@@ -137,7 +137,7 @@ def judge_sched(ctx, r):
     for c in conns:
         if c["id"] not in live and not c["closes"] and not c["broken"]:
             ctx.violation("live-connection-unreferenced", "P3: %s: connection %d is neither stored nor closed nor broken" % (tag, c["id"]), case)
-    rets = {e["who"]: e["ret"] for e in r.get("events", []) if e.get("e") == "ret"}
+    rets = {e["who"]: e["ret"] for e in (r.get("events") or []) if e.get("e") == "ret"}
     if n == "dial-dial-same":
         if r.get("second_returned_while_first_in_dialf"):
             ctx.violation("second-dial-did-not-wait", "P1: %s: the second Dial of the address returned while the first was inside the dial function" % tag, case)
